@@ -4,6 +4,7 @@ p=$1; k=$2; tier=${3:-quick}
 src=/tmp/wt_$p/SEED/$k
 id=${p}_s$k
 export GOFLAGS=-mod=mod GOPROXY=off GOSUMDB=off GOTOOLCHAIN=local
+[ -f $src/patch.diff ] || src=/verif/seeded/$id
 [ -f $src/patch.diff ] || { echo "no patch for $id"; exit 2; }
 pkg=$(grep -m1 '^package ' $src/demo_test.go | awk '{print $2}')
 case $pkg in postscript) dir=.;; pfb) dir=pfb;; type1) dir=type1;; names) dir=type1/names;; afm) dir=afm;; psenc) dir=psenc;; *) dir=.;; esac
@@ -33,9 +34,11 @@ git -C /repo checkout -- .
 nv=$(grep -c '^VIOLATION' /tmp/check_$id.log)
 echo "$id check($tier): exit=$rc violations=$nv  $(grep -E 'violated:' /tmp/check_$id.log | head -3 | sed 's/.*site=//' | tr '\n' ';')"
 mkdir -p /verif/seeded/$id
+if [ "$src" != "/verif/seeded/$id" ]; then
 cp $src/patch.diff /verif/seeded/$id/patch.diff
 cp $src/demo_test.go /verif/seeded/$id/demo_test.go
 [ -f $src/notes.md ] && cp $src/notes.md /verif/seeded/$id/notes.md
+fi
 python3 - "$id" "$p" "$dir" "$res_build" "$res_suite" "$res_demo_with" "$res_demo_without" "$rc" "$nv" "$tier" <<'PY'
 import json,sys,re
 id,p,d,b,s,dw,dwo,rc,nv,tier=sys.argv[1:]
